@@ -39,24 +39,24 @@ CHECKS["C01"] = ("bfs", "model_checking",
     "(narrow, wide, coloured, underlined blanks, four images incl. equal content in a different allocation and a two-row one, two tiles of one sprite sheet, two glyphs, one of them under two faces and once inside a frame, non-ASCII white space, an image under two faces, reverse-video blanks of two colours; "
     "a glyph must show as the image its own rasterisation gives for that face and cell size) and continues to a fixpoint of the state graph; "
     "after every frame the screen must equal what a fresh renderer paints on a blank screen, the from-scratch screen must equal the direct reading of the surface when nothing overlaps, "
-    "and no command may address a cell outside the grid or print in the pending-wrap column. The library's own render loop is driven too: every program of up to 3 handler calls (surface x Wait / WaitNoFrame / Sleep(0) x next event timeout / wake / resize / more than 32 frames pending) through Terminal::run_render on a scripted terminal (0.6 M programs); after every rendered frame the screen must equal a from-scratch repaint; a slice of both spaces runs once more under a tracing subscriber that evaluates every log line.",
+    "and no command may address a cell outside the grid or print in the pending-wrap column. The library's own render loop is driven too: every program of up to 3 handler calls (surface x Wait / WaitNoFrame / Sleep(0) x next event timeout / wake / resize / more than 32 frames pending) through Terminal::run_render on a scripted terminal (0.6 M programs); after every rendered frame the screen must equal a from-scratch repaint; a slice of both spaces runs once more under a tracing subscriber that evaluates every log line; a third space adds resizes that keep the grid and double the pixel size; every surface of a 2x4 grid with a tall and a three-cell-wide image is painted from scratch and no two placements may share a cell.",
     "Trusts the VT semantics of model/screen.rs (ECH = background only, wide-character halves) and unicode-width; image z-order is not modelled; grids beyond the listed sizes are not explored.",
     "DESIGN.md §C01")
 
 CHECKS["C16"] = ("bfs + devdfs (worker subprocesses)", "model_checking",
     "explicit-state BFS of the real IOQueue against a byte model + deviation-bounded enumeration of kernel answers for the real UnixTerminal on a pty",
-    "(a) BFS over all histories of write/flush/read/consume/consume_with/fill_buf/clear_but_last on the real IOQueue (payload capped) to the depth bound: in every state "
+    "(a) BFS over all histories of write/write_vectored/flush/read/consume/consume_with/fill_buf/clear_but_last on the real IOQueue (payload capped) to the depth bound: in every state "
     "len() must equal the readable bytes, bytes come out in order exactly once, and a drop may remove only whole flush-delimited chunks that have not started; a second pass over one-byte and 64 KiB / 70 001-byte writes and consumes to depth 7 (9) and (read_to_end in the alphabet; after every history a probe continuation - 3 bytes, flush, 2 bytes, drain - must deliver everything pending plus the five bytes, and its chunk lengths are part of the state key) and a third over a 3.3 MB chunk with consumes of 1 MiB + 1 and 2.2 MB to depth 4 (5) cover buffer re-allocation and block-release thresholds. "
     "(b) The real UnixTerminal runs scripted write/execute/flush/poll/frames_drop sessions on a real pseudo-terminal while hook H2 lets the harness answer every "
     "select/write/read and own the clock; ALL schedules with at most 2 (3; short sessions 3 (4), in the quick tier not those pushing more than 64 KiB) departures from the cooperative answer (short write of 1 / half / len-1 bytes, EAGAIN, EINTR, "
-    "withheld or delayed writability) are executed to completion, for every crash point of every session (sessions with the kitty image handler active put an image command inside a frame that is dropped and inside an execute_many batch; with the size tracked by escape sequences a window-size signal may arrive at any point - the terminal's own size request may stand between chunks only; every complete session once more with at most one deviation under a tracing subscriber that evaluates every log line); the bytes accepted by the tty must be the written chunks in order, whole, "
+    "withheld or delayed writability) are executed to completion, for every crash point of every session (sessions with the kitty and with the sixel image handler active put an image command - a cached one for sixel - inside a frame that is dropped and inside an execute_many batch; with the size tracked by escape sequences a window-size signal may arrive at any point - the terminal's own size request may stand between chunks only; every complete session once more with at most one deviation under a tracing subscriber that evaluates every log line); the bytes accepted by the tty must be the written chunks in order, whole, "
     "with only not-yet-started chunks missing after frames_drop.",
     "Kernel model (write accepts a prefix, select never invents readiness); encoder output taken as given (C05); sessions and payload sizes are the listed ones; more deviations than the bound are not explored.",
     "DESIGN.md §C16")
 CHECKS["C17"] = ("devdfs (worker subprocesses)", "fault_enumeration",
     "deviation-bounded enumeration of environment events (wake, SIGWINCH, SIGTERM, input, hang-up) at every system-call boundary and of every crash point, real UnixTerminal on a pty",
     "Same explorer as C16(b). In addition a waker call, SIGWINCH, SIGTERM, the next input bytes or a hang-up may land before ANY select/write/read or between the signal, waker and input "
-    "phases of the poll loop (hook points), each costing one deviation; polls use timeouts 0, 5 ms (virtual clock) and infinite; bursts of 127 / 128 / 256 / 1024 wake requests before one poll; a termination and a window-size signal pending together in both orders; three wake requests at every triple of points; three keys typed before position() with another one arriving inside it; two terminal objects one after the other on one pty device number (the first hung up before its release, the second with other initial line settings; real system calls, in a child process); arrival order under the real kernel (256 / 40 one-byte frames pending, a key typed, one poll, SIGWINCH: key before resize); a terminal that answers position() late while a wake is pending; eleven placements of the tty descriptor relative to the descriptors the terminal allocates itself (as given, moved to 40 with 0..6 or all lower numbers free, moved to 200 and 700; real system calls: typed keys must arrive, output and the closing sequence must reach the peer); the terminal is released after every prefix of every session. "
+    "phases of the poll loop (hook points), each costing one deviation; polls use timeouts 0, 5 ms (virtual clock) and infinite; bursts of 127 / 128 / 256 / 1024 wake requests before one poll; a termination and a window-size signal pending together in both orders; three wake requests at every triple of points; three keys typed before position() with another one arriving inside it; two terminal objects one after the other on one pty device number (the first hung up before its release, the second with other initial line settings; real system calls, in a child process); arrival order under the real kernel (256 / 40 one-byte frames pending, a key typed, one poll, SIGWINCH: key before resize); a terminal that answers position() late while a wake is pending; release with an output copy (duplicate_output) that cannot be written; eleven placements of the tty descriptor relative to the descriptors the terminal allocates itself (as given, moved to 40 with 0..6 or all lower numbers free, moved to 200 and 700; real system calls: typed keys must arrive, output and the closing sequence must reach the peer); the terminal is released after every prefix of every session. "
     "Oracle: a wake is followed by a Wake event from the current or a later poll and never blocks a poll for ever; SIGWINCH yields a Resize; SIGTERM yields the quit error; input bytes come out "
     "as the events a reference decoder gives, in order; no quit without cause; after release tcgetattr equals the saved settings and, if the tty kept accepting writes, the closing sequence "
     "(cursor visible, mouse modes off) was delivered. Every failing schedule is replayed twice and must fail identically.",
@@ -77,7 +77,7 @@ CHECKS["C11"] = ("bfs / history enumeration", "model_checking",
     "exhaustive enumeration of draw/erase/response histories on the real KittyImageHandler against an independent kitty-graphics parser and reference terminal image store",
     "All histories of depth 3 (no de-duplication; 1.19 M) and, de-duplicated by (transmitted ids, reference terminal state), depth 4 (6) over a 120-operation alphabet (8 images incl. 1x1, cropped/strided view, a crop taken after its parent was hashed and drawn, equal pixels in another allocation, "
     "empty, exactly-4096-byte payload, three-chunk payload; 4 positions incl. the origin and (65535,65535); draw, erase(Some), erase(None), OK and error responses for known and unknown ids, unrelated events) are executed on the real handler, "
-    "plus every history of 2 (3) operations over a second set of 11 images that differ in memory layout (row-major, transposed, windows with gaps, re-allocated copies; ids must be injective on content), volume histories (a 134 MB image drawn twice; thorough: 12 x 16 MiB and 40 x 4 MiB images twice), sinks that take 1 / 7 bytes per call, a first draw whose sink fails after 0 / 1 / 20 / 60 / 4300 bytes followed by a draw into a working sink, the .quiet() handler, two-operation histories under a tracing subscriber that evaluates every log line, histories through the library's `impl ImageHandler for Box<T>` (the way a terminal holds its handler; de-duplicated runs carry a probe continuation - every image drawn once more - in the state key), 1 024 single-pixel images over every channel value and thousands of sizes across the chunk boundaries. The emitted bytes are parsed by an independent APC/kitty parser and fed to a reference terminal store; "
+    "plus every history of 2 (3) operations over a second set of 11 images that differ in memory layout (row-major, transposed, windows with gaps, re-allocated copies; ids must be injective on content), volume histories (a 134 MB image drawn twice; thorough: 12 x 16 MiB and 40 x 4 MiB images twice), sinks that take 1 / 7 bytes per call, a first draw whose sink fails after 0 / 1 / 20 / 60 / 4300 bytes or at any of the last 70 bytes of the draw followed by a draw into a working sink, a pixel buffer recycled for another image after its first image was dropped, the .quiet() handler, two-operation histories under a tracing subscriber that evaluates every log line, histories through the library's `impl ImageHandler for Box<T>` (the way a terminal holds its handler; de-duplicated runs carry a probe continuation - every image drawn once more - in the state key), 1 024 single-pixel images over every channel value and thousands of sizes across the chunk boundaries. The emitted bytes are parsed by an independent APC/kitty parser and fed to a reference terminal store; "
     "oracle: valid commands, s/v = image size, f=32, chunks <= 4096 and multiples of 4 with correct m flags, payload base64-decodes to the exact RGBA pixels row-major, at most one transmission per content (plus one per evicting error), "
     "every put names a transmitted image, erase(img, Some(pos)) removes exactly the placement draw(img,pos) created.",
     "Trusts the reading of the kitty graphics protocol in model/kitty.rs (p=0 = unspecified); id hash collisions are out of reach of enumeration.",
@@ -133,7 +133,7 @@ CHECKS["C04"] = ("sweep", "exploration",
 CHECKS["C05"] = ("sweep", "exploration",
     "exhaustive enumeration of commands x parameter lattices x capability configurations, interpreted by an independent ECMA-48/xterm parser",
     "All 28 TerminalCommand variants x boundary lattices (positions/counts {0,1,2,9,10,99,65535}, signed moves and scrolls over {MIN,MIN+1,-10,-1,0,1,10,MAX}^2, all DEC modes, palette names and colours, every printable title / capability name up to length 2 (3), "
-    "every value 0..=70 000 of each numeric parameter of CursorTo / CursorMove / Scroll / ScrollRegion / EraseChars / KeyboardLevel / Color and every scalar value as Char, titles / names / raw payloads of 31..70 000 bytes, every command after an encode that failed in the writer at every offset, a sink that takes one byte per call, 150 528 (3.05 M) faces = colours x all attribute sets x underline styles, 72 576 face modifications) x 12 configurations (3 colour depths x kitty keyboard x glyphs) are encoded by the real TTYEncoder and parsed by model/ecma48.rs "
+    "every value 0..=70 000 of each numeric parameter of CursorTo / CursorMove / Scroll / ScrollRegion / EraseChars / KeyboardLevel / Color and every scalar value as Char, titles / names / raw payloads of 31..70 000 bytes, every command after an encode that failed in the writer at every offset, a sink that takes one byte per call, 200 704 (4.07 M) faces = colours x all attribute sets x underline styles (incl. the two raw field values that are no style), 72 576 face modifications) x 12 configurations (3 colour depths x kitty keyboard x glyphs) are encoded by the real TTYEncoder and parsed by model/ecma48.rs "
     "(byte-level C0/ESC/CSI/OSC/DCS/APC parser + operation decoder written from ECMA-48 / xterm ctlseqs); the operation list must equal the command's denotation with exact parameters, SGR must select exactly the requested rendition from three different "
     "start renditions, encode never panics; all 2 209 ordered pairs of 47 representative commands (incl. three keyboard levels) in one stream must parse back to the concatenation (self-containedness); colour history: every ordered pair of 24 colours (6 RGB x 4 alpha values) "
     "in every ordered pair of colour slots under the three depths, as two commands on one encoder and as one command, must convert each colour as a fresh encoder does.",
@@ -181,7 +181,7 @@ CHECKS["C13"] = ("sweep", "exploration",
     "DESIGN.md §C13")
 CHECKS["C19"] = ("sweep (worker subprocesses)", "exploration",
     "complete round-trip lattices + deviation-bounded enumeration of JSON mutations in resource-limited worker subprocesses",
-    "Round trips: 2.74 M faces (thorough: the full 48.2 M product of colours incl. alpha x attribute sets) through Display/FromStr and serde, every writable key x 256 modifier sets, chords up to length 3, sizes over {0,1,2,65535,usize::MAX}^2, all crops of images up to 3x3 and 1x1000, hand-built 1/3/4-channel inputs. "
+    "Round trips: 2.74 M faces (thorough: the full 48.2 M product of colours incl. alpha x attribute sets) through Display/FromStr and serde, every writable key x 256 modifier sets, chords up to length 3, sizes over {0,1,2,65535,usize::MAX}^2, all crops of images up to 3x3 and 1x1000, all ordered pairs of windows of one image object serialised back to back, hand-built 1/3/4-channel inputs. "
     "Hostile documents: 12 valid seed documents (Image, Glyph, Text, view trees using every view type) with EVERY single mutation (5 615) in quick and EVERY pair of mutations (2.6 M) in thorough from a 20-value replacement alphabet (null, numbers up to 2^64-1 and 1e308, empty / deep arrays, an ill-typed leaf under 12 and 120 nested arrays, a repeated size key with another value, padding inside the base64 text, image documents in every key order, wrapped sizes, broken base64, every view type name, 100- and 1000-deep nests) plus key deletion, duplication and swaps, "
     "each through the JSON text route and the Value route, in worker subprocesses with an 8 MiB stack, a 3 GiB address-space limit and an 8 s stall timeout. Oracle: deserialisation returns (no panic, abort, stack overflow, stall); every view tree that deserialises is laid out under 6 constraints (and under two constraints in five contexts built from terminals that report no, partial or tiny pixel sizes) and rendered into a sentinel-bordered canvas without panicking; accepted and rejected counts must both be non-zero per deserialiser.",
     "Documents larger than the seeds and mutation sets larger than pairs are not enumerated; serde_json's own recursion limit is trusted.",
